@@ -6,11 +6,13 @@ import (
 	"fmt"
 	"os"
 	"sort"
+	"strings"
 	"time"
 
 	"verifharness/cli"
 	"verifharness/evidence"
 	"verifharness/props/c09craft"
+	"verifharness/props/c11"
 	"verifharness/props/idw"
 	"verifharness/subproc"
 	"verifharness/xstate"
@@ -20,7 +22,7 @@ func main() {
 	cli.Main(map[string]func([]string){
 		"C09":      run,
 		"c09craft": func([]string) { subproc.Serve(c09craft.Handle) },
-	}, map[string]xstate.Factory{"idw": idw.New})
+	}, map[string]xstate.Factory{"idw": idw.New, "c11w": c11.New})
 }
 
 func run(args []string) {
@@ -87,6 +89,43 @@ func run(args []string) {
 			rep.Report(evidence.Report{Oracle: fd.Oracle, Sig: fd.Sig,
 				Detail: fmt.Sprintf("[%s] after %v: %s (reproduced %d/5)", r.name, fd.Path, fd.Detail, n),
 				Replay: map[string]any{"kind": "xstate", "model": "idw", "params": r.p, "path": fd.Path}, Count: res.SigCount[fd.Oracle+"|"+fd.Sig]})
+		}
+	}
+
+	// ---- part 1b: identity histories through the cache. The cache intercepts merges and keeps instances
+	// in memory; here the same identity is edited on two replicas, one of them leaving a mutation
+	// uncommitted across a pull (the cache world of C11 restricted to the identity actions; only the
+	// append-only oracle of this property is taken from it).
+	{
+		cdepth, cbudget := 5, 60*time.Second
+		if tier == "thorough" {
+			cdepth, cbudget = 7, 8*time.Minute
+		}
+		if *depthOverride > 0 {
+			cdepth = *depthOverride
+		}
+		cp := c11.Params{Seed: seed, Kinds: "idstage,idcommit,idmutate,pull,push", KindsB: "idmutateother,push,pull"}
+		fmt.Fprintf(os.Stderr, "== C09: identity histories through the cache, a mutation pending across a pull (depth %d)\n", cdepth)
+		res := xstate.Run(xstate.Config{Property: "C09", Model: "c11w", Params: cp.String(), MaxDepth: cdepth,
+			Deadline: time.Now().Add(cbudget), CrashIsViolation: true, Log: os.Stderr})
+		states += res.States
+		trans += res.Transitions
+		exhaustive = exhaustive && res.Exhaustive
+		runInfo = append(runInfo, map[string]any{"configuration": "identity histories through the cache (A: idstage/idcommit/idmutate/pull/push, B: idmutateother/push/pull)", "params": cp,
+			"max_depth": cdepth, "completed_depth": res.CompletedDepth, "states": res.States, "transitions": res.Transitions, "new_states_per_depth": res.PerDepth})
+		for _, e := range res.HarnessErrors {
+			fmt.Fprintln(os.Stderr, "harness error:", e)
+			harnessErr = true
+		}
+		sort.Slice(res.Found, func(i, j int) bool { return len(res.Found[i].Path) < len(res.Found[j].Path) })
+		for _, fd := range res.Found {
+			if !strings.HasPrefix(fd.Oracle, "c09.") && fd.Oracle != "crash" {
+				continue // what the cache serves is C11's subject
+			}
+			n := xstate.Reproductions("c11w", cp.String(), fd, 5)
+			rep.Report(evidence.Report{Oracle: fd.Oracle, Sig: fd.Sig,
+				Detail: fmt.Sprintf("[through the cache] after %v: %s (reproduced %d/5)", fd.Path, fd.Detail, n),
+				Replay: map[string]any{"kind": "xstate", "model": "c11w", "params": cp, "path": fd.Path}, Count: res.SigCount[fd.Oracle+"|"+fd.Sig]})
 		}
 	}
 
